@@ -78,4 +78,88 @@ def humanDurationValue (d : Nat) : Nat :=
   let (idx, t) := humanDurationCount d
   t * (units.getD idx (SECOND, "", "")).1
 
+
+/-! ## Floating-point formatters: `HumanFloatCount`, `HumanBytes`, `BinaryBytes`, `DecimalBytes`
+
+An `f64` is given by its IEEE-754 bit pattern (a `Nat` below `2^64`), decoded here by integer
+arithmetic, so that the decimal expansion is exact and the definitions reduce in the kernel.
+`{:.p}` of Rust's standard library is the exact value rounded half-to-even to `p` decimals. -/
+
+inductive F64Class where
+  | nan | inf (neg : Bool)
+  | fin (neg : Bool) (mant : Nat) (exp : Int)     -- value = ± mant · 2^exp
+deriving Repr, DecidableEq
+
+def decodeF64 (bits : Nat) : F64Class :=
+  let neg := bits / 2 ^ 63 % 2 == 1
+  let e := bits / 2 ^ 52 % 2048
+  let m := bits % 2 ^ 52
+  if e = 2047 then (if m = 0 then .inf neg else .nan)
+  else if e = 0 then .fin neg m (-1074)
+  else .fin neg (2 ^ 52 + m) (Int.ofNat e - 1075)
+
+/-- round half to even of `num / den` -/
+def roundHalfEven (num den : Nat) : Nat :=
+  let q := num / den
+  let r := num % den
+  if 2 * r > den ∨ (2 * r = den ∧ q % 2 = 1) then q + 1 else q
+
+/-- `mant · 2^exp · 10^prec`, rounded half to even -/
+def scaledRound (mant : Nat) (exp : Int) (prec : Nat) : Nat :=
+  match exp with
+  | .ofNat k => mant * 2 ^ k * 10 ^ prec
+  | .negSucc k => roundHalfEven (mant * 10 ^ prec) (2 ^ (k + 1))
+
+def padLeftZeros (n : Nat) (ds : List Char) : List Char := List.replicate (n - ds.length) '0' ++ ds
+
+/-- integer digits and fraction digits of `format!("{:.prec}", |x|)` -/
+def fixedParts (mant : Nat) (exp : Int) (prec : Nat) : List Char × List Char :=
+  let ds := padLeftZeros (prec + 1) (digits (scaledRound mant exp prec))
+  (ds.take (ds.length - prec), ds.drop (ds.length - prec))
+
+/-- commas after every third digit from the right (`ds` are the integer digits) -/
+def group3 (ds : List Char) : List Char :=
+  let len := ds.length
+  (List.range len).flatMap (fun idx =>
+    let pos := len - idx - 1
+    [ds.getD idx '0'] ++ (if pos > 0 && pos % 3 == 0 then [','] else []))
+
+def trimZeros (ds : List Char) : List Char := (ds.reverse.dropWhile (· == '0')).reverse
+
+/-- `HumanFloatCount` as it is in the repository now: sign, grouped integer digits of the correctly
+rounded fixed-precision decimal, trimmed fraction; NaN and the infinities pass through -/
+def humanFloatCount (bits prec : Nat) : List Char :=
+  match decodeF64 bits with
+  | .nan => "NaN".toList
+  | .inf neg => (if neg then ['-'] else []) ++ "inf".toList
+  | .fin neg mant exp =>
+    let (ip, fp) := fixedParts mant exp prec
+    let fr := trimZeros fp
+    (if neg then ['-'] else []) ++ group3 ip ++ (if fr = [] then [] else '.' :: fr)
+
+/-- `format!("{:.prec}", x)` for a finite or non-finite `f64` -/
+def fmtFixed (bits prec : Nat) : List Char :=
+  match decodeF64 bits with
+  | .nan => "NaN".toList
+  | .inf neg => (if neg then ['-'] else []) ++ "inf".toList
+  | .fin neg mant exp =>
+    let (ip, fp) := fixedParts mant exp prec
+    (if neg then ['-'] else []) ++ ip ++ (if prec = 0 then [] else '.' :: fp)
+
+def binaryPrefixes : List String := ["Ki", "Mi", "Gi", "Ti", "Pi", "Ei", "Zi", "Yi"]
+def decimalPrefixes : List String := ["k", "M", "G", "T", "P", "E", "Z", "Y"]
+
+/-- `number_prefix`'s loop: divide by `kilo` while the amount is at least `kilo`, at most 8 times
+(hardware `f64` arithmetic, as in the crate) -/
+def prefixLoop (kilo : Float) : Nat → Float → Nat → Float × Nat
+  | 0, a, p => (a, p)
+  | fuel + 1, a, p => if a >= kilo && p < 8 then prefixLoop kilo fuel (a / kilo) (p + 1) else (a, p)
+
+/-- `HumanBytes` / `BinaryBytes` (`binary = true`) and `DecimalBytes` of a `u64` -/
+def humanBytes (n : Nat) (binary : Bool) : List Char :=
+  let x := (UInt64.ofNat n).toFloat
+  let (a, p) := prefixLoop (if binary then 1024.0 else 1000.0) 8 x 0
+  if p = 0 then fmtFixed a.toBits.toNat 0 ++ " B".toList
+  else fmtFixed a.toBits.toNat 2 ++ [' '] ++ ((if binary then binaryPrefixes else decimalPrefixes).getD (p - 1) "?").toList ++ ['B']
+
 end IndicatifModel.Format
